@@ -4,6 +4,8 @@ from __future__ import annotations
 import ast
 from typing import Any
 
+from jinja2 import nodes as jnodes
+
 from ..astutil import Locals, call_name, names_in, norm, receivers, region, role_anon, short, where
 from ..cfg import walk_own
 from ..core import PKG, AnalysisError, Report
@@ -48,6 +50,9 @@ ALLOWED = {
 # belongs to it; a read inside any other private helper belongs to whoever calls the helper.
 _UNITS = {fn for fns in ALLOWED.values() for fn in fns if not fn.startswith("*") and not fn.endswith(".jinja")} | {
     "Project._build_models", "Project._build_api", "Project._build_setup_py", "Project._run_command", "Project._get_errors"}
+
+
+_TEMPLATE_UNITS = {fn for fns in ALLOWED.values() for fn in fns if fn.endswith(".jinja")}
 
 
 def run(rep: Report, ctx: Any) -> str:
@@ -119,10 +124,13 @@ def run(rep: Report, ctx: Any) -> str:
                     reads[n.attr].add(_VALUE_SINKS[n.attr][0])
                 else:
                     reads[n.attr] |= _read_sites(f, allowed, callers, set())
+    # templates: the same attribution.  A template that Python renders on its own is what the documentation speaks about; a template that
+    # is only imported / included / extended (a macro library) works for the templates that load it.
+    loaders = _template_loaders(ctx.jinja)
     for k, (txt, attr, line, types) in ji.attr_reads.items():
         if attr in reads and cfgc.qual in types:
             n_reads += 1
-            reads[attr].add(k[0])
+            reads[attr] |= _template_read_sites(k[0], ALLOWED.get(attr, set()), set(ji.render_kwargs), loaders, set())
     rep.floor("config_reads", n_reads, 30)
     for fld in fields:
         allowed = ALLOWED.get(fld)
@@ -224,6 +232,42 @@ def _read_sites(f: Any, allowed: set[str], callers: dict[str, list[Any]], seen: 
     for g in callers.get(f.qual, []):
         out |= _read_sites(g, allowed, callers, seen | {f.qual})
     return out or {short(f)}
+
+
+def _template_loaders(jx: Any) -> dict[str, set[str]]:
+    """template -> the templates that load it (`import` / `from ... import` / `include` / `extends`).  A name computed at run time
+    (`"property_templates/" + property.template`) stands for every template it can name: those that start with its constant prefix,
+    every template when there is none."""
+    out: dict[str, set[str]] = {}
+    for ti in jx.templates.values():
+        for n in ti.tree.find_all((jnodes.Import, jnodes.FromImport, jnodes.Include, jnodes.Extends)):
+            t = n.template
+            names: list[str]
+            if isinstance(t, jnodes.Const) and isinstance(t.value, str):
+                names = [t.value]
+            elif isinstance(t, (jnodes.List, jnodes.Tuple)) and all(isinstance(x, jnodes.Const) for x in t.items):
+                names = [x.value for x in t.items]
+            else:
+                head = t
+                while isinstance(head, (jnodes.Add, jnodes.Concat)):
+                    head = head.left if isinstance(head, jnodes.Add) else head.nodes[0]
+                prefix = head.value if isinstance(head, jnodes.Const) and isinstance(head.value, str) and head is not t else ""
+                names = [x for x in jx.templates if x.startswith(prefix)]
+            for name in names:
+                if name != ti.name:
+                    out.setdefault(name, set()).add(ti.name)
+    return out
+
+
+def _template_read_sites(t: str, allowed: set[str], rendered: set[str], loaders: dict[str, set[str]], seen: set[str]) -> set[str]:
+    """the template(s) a read inside template t belongs to: t itself when it is a documented reader (of this or of another option) or is
+    rendered on its own, else - t being a library of macros / a fragment - whatever loads it"""
+    if t in allowed or t in _TEMPLATE_UNITS or t in rendered or t in seen:
+        return {t}
+    out: set[str] = set()
+    for u in loaders.get(t, ()):
+        out |= _template_read_sites(u, allowed, rendered, loaders, seen | {t})
+    return out or {t}
 
 
 def _calls_of(g: Any, h: Any) -> list[ast.Call]:
@@ -643,9 +687,7 @@ def _r167_switched_classes(rep: Report, ix: Any, jx: Any) -> None:
 
     def locations_of(name: str) -> set[str] | None:
         al = ix.find_classvar(classes[name], "_allowed_locations")
-        if al is None or not isinstance(al[1], (ast.Set, ast.List, ast.Tuple)):
-            return None
-        return {norm(x).rsplit(".", 1)[-1] for x in al[1].elts}
+        return _const_set(ix, al[0].module, al[1]) if al is not None else None
 
     for a, b in pairs:
         # what a template offers to the templates that import it: Jinja exports the top-level names that do not start with `_`
@@ -659,6 +701,43 @@ def _r167_switched_classes(rep: Report, ix: Any, jx: Any) -> None:
         rep.check(la == lb, "R16.7", f"{option}::{b}|{a}::same-allowed-locations",
                   f"{a} ({option} on) and {b} (off) are not allowed in the same parameter locations ({sorted(la ^ lb)}): a document accepted under "
                   "one setting is rejected under the other", where=f"{PKG}/parser/properties", lhs=sorted(la), rhs=sorted(lb))
+
+
+def _const_set(ix: Any, m: Any, e: ast.AST, depth: int = 8) -> set[str] | None:
+    """the members of a constant collection of enumeration members, evaluated: a display (`*x` spliced in), `set` / `frozenset` / `tuple` /
+    `list` of one, a module-level constant or a class constant (of this or of an imported module) standing for its value, `|` `-` `&` `^` of
+    two.  A member is named by its last component (`oai.ParameterLocation.QUERY` -> QUERY).  None when anything else takes part."""
+    if depth <= 0:
+        return None
+    if isinstance(e, (ast.Set, ast.List, ast.Tuple)):
+        out: set[str] = set()
+        for x in e.elts:
+            if isinstance(x, ast.Starred):
+                part = _const_set(ix, m, x.value, depth - 1)
+                if part is None:
+                    return None
+                out |= part
+            elif isinstance(x, ast.Attribute):
+                out.add(x.attr)
+            else:
+                return None
+        return out
+    if isinstance(e, ast.Call) and call_name(e) in ("set", "frozenset", "tuple", "list") and not e.keywords and len(e.args) <= 1:
+        return _const_set(ix, m, e.args[0], depth - 1) if e.args else set()
+    if isinstance(e, ast.BinOp) and isinstance(e.op, (ast.BitOr, ast.Sub, ast.BitAnd, ast.BitXor)):
+        a, b = _const_set(ix, m, e.left, depth - 1), _const_set(ix, m, e.right, depth - 1)
+        if a is None or b is None:
+            return None
+        return a | b if isinstance(e.op, ast.BitOr) else a - b if isinstance(e.op, ast.Sub) else a & b if isinstance(e.op, ast.BitAnd) else a ^ b
+    if isinstance(e, (ast.Name, ast.Attribute)):
+        r = ix.resolve(m, norm(e))
+        if r and r[0] == "var":
+            mod, n = r[1]
+            return _const_set(ix, mod, mod.variables[n], depth - 1)
+        if r and r[0] == "classvar":
+            cv = ix.find_classvar(*r[1])
+            return _const_set(ix, cv[0].module, cv[1], depth - 1) if cv else None
+    return None
 
 
 def _exported_names(tree: Any) -> set[str]:
